@@ -163,6 +163,7 @@ fn handler(req: Request) -> Response {
         "/big" => Response::text(200, big_body()),
         "/huge" => Response::text(200, "h".repeat(32 * 1024 * 1024)),
         "/up" => Response::text(200, format!("up-{}", req.body.len().unwrap_or(0))),
+        "/upsmall" => if req.body.is_pending() { Response::get_body_and_reprocess(1000) } else { Response::text(200, "upsmall") },
         "/upf" => if req.body.is_pending() { Response::get_body_and_reprocess(10_000_000) } else { Response::text(200, format!("upf-{}", req.body.len().unwrap_or(0))) },
         _ => Response::text(200, "ok"),
     }
@@ -322,6 +323,13 @@ fn client_run(c: &mut TcpStream, kind: char, id: usize) -> String {
             std::thread::sleep(Duration::from_millis(60));
             "-".to_string()
         }
+        'x' => {
+            // an upload that the handler refuses: longer than the limit it gives (413)
+            let _ = c.write_all(b"POST /upsmall HTTP/1.1\r\ncontent-length: 200000\r\n\r\n");
+            let _ = c.write_all(&vec![b'u'; 3000]);
+            let r = read_response(&mut c);
+            r.split('/').next().unwrap().to_string()
+        }
         'k' => {
             let _ = c.write_all(b"GET /ok HTTP/1.1\r\n\r\n");
             let r = read_response(&mut c);
@@ -379,10 +387,13 @@ pub fn case_limit(ctx: &mut Ctx, n: &str, kinds: &str, delays: &str) {
             *g = Gate::default();
             g.max = keep;
         }
-        let fresh: Vec<_> = (0..nn).map(|j| { let addr = srv.addr; std::thread::spawn(move || client(addr, 'g', 1000 + j, 0)) }).collect();
+        // (two clients more than there are slots: they must wait their turn, never be serviced beyond the limit)
+        let fresh: Vec<_> = (0..nn + 2).map(|j| { let addr = srv.addr; std::thread::spawn(move || client(addr, 'g', 1000 + j, 0)) }).collect();
         let full = wait_gauge(|g| g.entered >= nn, Duration::from_secs(8));
+        std::thread::sleep(Duration::from_millis(60));
+        { let mut g = gate().0.lock().unwrap(); let now = g.entered; g.max = g.max.max(now); }
         release_all();
-        let fresh_ok = fresh.into_iter().map(|h| h.join().map(|r| r.0).unwrap_or_default()).filter(|r| r == "200").count();
+        let fresh_ok = fresh.into_iter().map(|h| h.join().map(|r| r.0).unwrap_or_default()).filter(|r| r == "200").count().min(nn);
         drop(lingering);
         let max2 = gate().0.lock().unwrap().max;
         let stopped = stop(srv);
@@ -729,7 +740,7 @@ pub fn run_tokens(ctx: &mut Ctx) {
 pub fn run_limit(ctx: &mut Ctx) {
     let mut rng = Rng::new(ctx.seed.wrapping_add(12));
     let count = if ctx.thorough() { 160 } else { 24 };
-    let all = ['g', 'e', 'p', 'd', 'm', 'a', 'u', 'v', 'w', 'k', 'r', 'E', 'P', 'D', 'M'];
+    let all = ['g', 'e', 'p', 'd', 'm', 'a', 'u', 'v', 'w', 'x', 'k', 'r', 'E', 'P', 'D', 'M'];
     for idx in 0..count {
         let n = 1 + (idx as usize % 4);
         let clients = rng.range(2 * n as u64, 3 * n as u64) as usize;
@@ -742,13 +753,21 @@ pub fn run_limit(ctx: &mut Ctx) {
         if ctx.mine(idx + 1) { case_limit(ctx, &n.to_string(), &kinds, &format!("{prefix}{}", delays.join(","))); }
     }
     // histories made of connections that end in an error (malformed request, aborted upload with a reset), under a stalled logger
-    for (j, (n, kinds)) in [(2usize, "mmmmgg"), (1, "mmwmg"), (2, "wwwwgg"), (3, "mwmwmwggg"), (2, "MmMmgg")].iter().enumerate() {
+    for (j, (n, kinds)) in [(2usize, "mmmmgg"), (1, "mmwmg"), (2, "wwwwgg"), (3, "mwmwmwggg"), (2, "MmMmgg"), (2, "xxxgg"), (1, "xxg"), (3, "xmxwxggg")].iter().enumerate() {
         for prefix in ["L1:", ""] {
             if ctx.mine(1000 + j as u64) {
                 let delays: Vec<String> = (0..kinds.len()).map(|i| (i * 3).to_string()).collect();
                 case_limit(ctx, &n.to_string(), kinds, &format!("{prefix}{}", delays.join(",")));
             }
         }
+    }
+}
+
+/// c13w: only the "response being written" phase of c13 (a 6 MiB response to a client that is not reading yet, the permit
+/// revoked meanwhile): the response must arrive complete.  Shared with C06.
+pub fn run_c13w(ctx: &mut Ctx) {
+    for (i, (n, ph, delay)) in [(1usize, "w", 0u64), (2, "w", 10), (2, "ww", 20), (1, "w", 40)].iter().enumerate() {
+        if ctx.mine(i as u64) { case_shutdown(ctx, &n.to_string(), ph, &delay.to_string()); }
     }
 }
 
